@@ -132,6 +132,13 @@ pub struct ExecLike {
 /// not observable, so it counts as happened if the response reports it, and otherwise must lie
 /// inside a region nulled by a failure that did happen (the library legitimately stopped early).
 pub fn expected(base: &ExecLike, faulted_log: &[super::world::REvent], root_types: &BTreeMap<String, Ty>, got_errs: &[(String, String)]) -> Result<(J, Vec<(String, String)>), String> {
+    expected_ext(base, faulted_log, root_types, got_errs, false)
+}
+
+/// `in_transit`: suspending extension hooks wrap the resolvers, so an error a resolver has returned
+/// may still be travelling through a suspended hook when a sibling's error cancels the region; such
+/// a failure is treated like an unevaluated list item (optional if pre-empted).
+pub fn expected_ext(base: &ExecLike, faulted_log: &[super::world::REvent], root_types: &BTreeMap<String, Ty>, got_errs: &[(String, String)], in_transit: bool) -> Result<(J, Vec<(String, String)>), String> {
     let fmap = field_map(&[&base.log, faulted_log]);
     let mut data = base.data.clone();
     let mut errs = vec![];
@@ -141,11 +148,16 @@ pub fn expected(base: &ExecLike, faulted_log: &[super::world::REvent], root_type
     let (items, fields): (Vec<_>, Vec<_>) = all.into_iter().partition(|r| r.line == 0 && r.parent.is_empty());
     // fields first, then the items the response reports, then the unreported items
     let (rep, unrep): (Vec<_>, Vec<_>) = items.into_iter().partition(|r| got_errs.iter().any(|(p, _)| *p == r.path));
-    let mut ordered = fields;
+    let (frep, funrep): (Vec<_>, Vec<_>) = if in_transit { fields.into_iter().partition(|r| got_errs.iter().any(|(p, _)| *p == r.path)) } else { (fields, vec![]) };
+    let mut ordered = frep;
     ordered.extend(rep);
+    let optional_from = ordered.len();
+    ordered.extend(funrep);
     ordered.extend(unrep);
+    let mut idx = 0usize;
     for r in ordered {
-        let is_item = r.line == 0 && r.parent.is_empty();
+        let is_item = (r.line == 0 && r.parent.is_empty()) || (in_transit && idx >= optional_from);
+        idx += 1;
         let types = position_types(&r.path, &fmap, root_types).ok_or_else(|| format!("cannot type path {}", r.path))?;
         // location: the failing field's position (for list items: the list field's)
         let fpath = strip_trailing_indices(&r.path);
